@@ -152,9 +152,13 @@ def run(W, p):
         return ("time",)
     elif fault == "release-position":
         clause = "release-position"
-        for case in ("no-position", "missing-file", "empty-name"):
+        for case in ("no-position", "missing-file", "empty-name", "row-without-position"):
             (tmp2 / case).mkdir()
             cfg, log = _world(W, p, good_frames, good_rel, tmp2 / case, relcols=("release_time", "Z") if case == "no-position" else ("release_time", "X", "Y", "Z"))
+            if case == "row-without-position":
+                # the table has X and Y columns but one row leaves them empty (read as NaN)
+                sgn_ = -1 if p["rev"] else 1
+                W.table(tmp2 / case / "r.rls", ["release_time", "X", "Y", "Z"], [[W.dt(T0), 3, 3, 5], [W.dt(T0 + sgn_ * DT), float("nan"), float("nan"), 5]])
             if case == "missing-file":
                 cfg["release"]["release_file"] = str(tmp2 / "nosuch.rls")
             if case == "empty-name":
